@@ -3,16 +3,16 @@
 package h
 
 import (
-	"crypto/sha1"
 	"encoding/json"
 	"fmt"
 	"os"
-	"path/filepath"
 	"sort"
 	"strings"
 	"time"
 
 	"github.com/olive-io/bpmn/v2/verifrt"
+
+	"verif/harness/rep"
 )
 
 // Finding is one violation: Sig identifies the failed clause (see DESIGN.md Appendix B),
@@ -35,12 +35,12 @@ type Scn struct {
 	Weight        int // scheduling hint: heavier jobs are started first
 }
 
-// Plain is a sequential bounded-exhaustive enumeration (no scheduler involved).
-type Plain struct {
-	Name   string
-	Run    func(r *Report)
-	Weight int
-}
+// Plain, Report and ViolationRec live in package rep (no runtime dependency).
+type (
+	Plain        = rep.Plain
+	Report       = rep.Report
+	ViolationRec = rep.ViolationRec
+)
 
 // Gen produces the scenarios of a property for a tier ("quick" or "thorough").
 type Gen func(tier string) ([]*Scn, []*Plain)
@@ -61,105 +61,6 @@ func Props() []string {
 // Fail records an in-execution violation with a signature.
 func Fail(sig, format string, a ...any) {
 	verifrt.Fail("%s|%s", sig, fmt.Sprintf(format, a...))
-}
-
-// ViolationRec is a violation as reported by a shard.
-type ViolationRec struct {
-	Sig      string `json:"sig"`
-	Msg      string `json:"msg"`
-	Scenario string `json:"scenario"`
-	Replay   string `json:"replay"`
-}
-
-// Report is the partial result of one shard (also used by Plain enumerations).
-type Report struct {
-	Prop        string          `json:"prop"`
-	Tier        string          `json:"tier"`
-	Shard       int             `json:"shard"`
-	Scenarios   int             `json:"scenarios"`
-	ScenariosOK int             `json:"scenarios_exhaustive"`
-	Skipped     int             `json:"scenarios_skipped"`
-	Execs       int64           `json:"execs"`
-	Complete    int64           `json:"complete"`
-	Pruned      int64           `json:"pruned"`
-	Steps       int64           `json:"steps"`
-	States      int64           `json:"states"`
-	Nontrivial  int64           `json:"nontrivial"`
-	Deadlocks   int64           `json:"deadlocks"`
-	Distinct    map[string]bool `json:"-"`
-	DistinctN   int64           `json:"distinct"`
-	Evals       int64           `json:"evals"` // plain enumerations: cases evaluated
-	MaxBound    int             `json:"max_bound"`
-	MinBound    int             `json:"min_bound"`
-	Unbounded   int             `json:"unbounded_scenarios"`
-	Caps        []string        `json:"caps"`
-	Samples     []any           `json:"samples"`
-	Violations  []ViolationRec  `json:"violations"`
-	Aborts      []string        `json:"aborts"`
-	WallS       float64         `json:"wall_s"`
-	Exhaustive  bool            `json:"exhaustive"`
-	PerScenario []string        `json:"per_scenario,omitempty"`
-
-	deadline time.Time
-	curName  string
-	replays  string
-}
-
-// ---- API for Plain enumerations ----
-
-// Case counts one evaluated case; key identifies it for distinctness, nontrivial per the
-// property's rule.
-func (r *Report) Case(key string, nontrivial bool) {
-	r.Evals++
-	r.Execs++
-	r.Complete++
-	if nontrivial {
-		r.Nontrivial++
-		if len(r.Distinct) < 2000000 {
-			r.Distinct[key] = true
-		}
-	}
-}
-
-// AddStates lets an explicit-state search report its state/transition counts.
-func (r *Report) AddStates(states, transitions int64) {
-	r.States += states
-	r.Steps += transitions
-}
-
-func (r *Report) Sample(v any) {
-	if len(r.Samples) < 3 {
-		r.Samples = append(r.Samples, v)
-	}
-}
-
-// Expired reports whether the time budget is used up (the enumeration should stop and call Cap).
-func (r *Report) Expired() bool { return !r.deadline.IsZero() && time.Now().After(r.deadline) }
-
-func (r *Report) Cap(what string) {
-	r.Exhaustive = false
-	r.Caps = append(r.Caps, r.curName+": "+what)
-}
-
-// Violation records a violation with a replayable description of the failing input.
-func (r *Report) Violation(sig, msg string, input any) {
-	for _, v := range r.Violations {
-		if v.Sig == sig && v.Scenario == r.curName {
-			return // one witness per signature and scenario
-		}
-	}
-	path := writeReplay(r.replays, r.Prop, map[string]any{"property": r.Prop, "tier": r.Tier, "scenario": r.curName, "kind": "plain",
-		"signature": sig, "message": msg, "input": input})
-	r.Violations = append(r.Violations, ViolationRec{Sig: sig, Msg: msg, Scenario: r.curName, Replay: path})
-}
-
-func writeReplay(dir, prop string, v map[string]any) string {
-	b, _ := json.MarshalIndent(v, "", " ")
-	sum := sha1.Sum(b)
-	os.MkdirAll(dir, 0o755)
-	path := filepath.Join(dir, fmt.Sprintf("%s-%x.json", prop, sum[:5]))
-	os.WriteFile(path, b, 0o644)
-	return path
 }
 
 func splitFail(s string) Finding {
@@ -206,21 +107,9 @@ func class(name string) string {
 }
 
 // Split, when > 1 on a scenario, deals the first-level subtrees of its search to that many jobs.
-func newReport(prop, tier, replayDir string, deadline time.Time) *Report {
-	return &Report{Prop: prop, Tier: tier, Distinct: map[string]bool{}, Exhaustive: true, MinBound: 1 << 30, replays: replayDir, deadline: deadline}
-}
-
-func (r *Report) finish(t0 time.Time) {
-	if r.MinBound == 1<<30 {
-		r.MinBound = 0
-	}
-	r.DistinctN = int64(len(r.Distinct))
-	r.WallS = time.Since(t0).Seconds()
-}
-
-func (r *Report) runScn(sc *Scn, splitIdx, splitK int) {
+func runScn(r *Report, sc *Scn, splitIdx, splitK int) {
 	prop, tier := r.Prop, r.Tier
-	r.curName = sc.Name
+	r.CurName = sc.Name
 	if r.Expired() {
 		r.Skipped++
 		r.Exhaustive = false
@@ -228,7 +117,7 @@ func (r *Report) runScn(sc *Scn, splitIdx, splitK int) {
 	}
 	r.Scenarios++
 	opts := sc.Opts
-	opts.Deadline = r.deadline
+	opts.Deadline = r.Deadline
 	opts.SplitIdx, opts.SplitK = splitIdx, splitK
 	if v := os.Getenv("VERIF_MAXSTEPS"); v != "" {
 		fmt.Sscan(v, &opts.MaxSteps)
@@ -287,32 +176,12 @@ func (r *Report) runScn(sc *Scn, splitIdx, splitK int) {
 			continue
 		}
 		seen[f.Sig] = true
-		path := writeReplay(r.replays, prop, map[string]any{"property": prop, "tier": tier, "scenario": sc.Name, "kind": "schedule",
+		path := rep.WriteReplay(r.Replays, prop, map[string]any{"property": prop, "tier": tier, "scenario": sc.Name, "kind": "schedule",
 			"signature": f.Sig, "message": f.Msg, "bound": opts.Bound, "unbounded": opts.Unbounded, "choices": v.Choices,
 			"log": trunc(v.Outcome.Log, 200), "blocked": v.Outcome.Blocked, "spinners": v.Outcome.Spinners, "live": v.Outcome.Live, "panic": firstLines(v.Outcome.Panic, 30)})
 		r.Violations = append(r.Violations, ViolationRec{Sig: f.Sig, Msg: f.Msg, Scenario: sc.Name, Replay: path})
 	}
 	r.PerScenario = append(r.PerScenario, fmt.Sprintf("%s[%d/%d] execs=%d complete=%d states=%d steps=%d exh=%v viol=%d %.2fs", sc.Name, splitIdx, splitK, st.Execs, st.Complete, st.States, st.Steps, st.Exhaustive, len(viol), time.Since(ts).Seconds()))
-}
-
-func (r *Report) runPlain(p *Plain) {
-	r.curName = p.Name
-	if r.Expired() {
-		r.Skipped++
-		r.Exhaustive = false
-		return
-	}
-	r.Scenarios++
-	before := r.Exhaustive
-	r.Exhaustive = true
-	ts := time.Now()
-	e0 := r.Evals
-	p.Run(r)
-	if r.Exhaustive {
-		r.ScenariosOK++
-	}
-	r.PerScenario = append(r.PerScenario, fmt.Sprintf("%s evals=%d exh=%v %.2fs", p.Name, r.Evals-e0, r.Exhaustive, time.Since(ts).Seconds()))
-	r.Exhaustive = r.Exhaustive && before
 }
 
 // Job is one unit of work handed to a worker process.
@@ -363,14 +232,14 @@ func Serve(prop, tier, replayDir string, deadline time.Time) {
 		if err := dec.Decode(&j); err != nil {
 			return
 		}
-		r := newReport(prop, tier, replayDir, deadline)
+		r := rep.New(prop, tier, replayDir, deadline)
 		t0 := time.Now()
 		if j.Index < len(scns) {
-			r.runScn(scns[j.Index], j.SplitIdx, j.SplitK)
+			runScn(r, scns[j.Index], j.SplitIdx, j.SplitK)
 		} else {
-			r.runPlain(plains[j.Index-len(scns)])
+			r.RunPlain(plains[j.Index-len(scns)])
 		}
-		r.finish(t0)
+		r.Finish(t0)
 		if err := enc.Encode(r); err != nil {
 			return
 		}
@@ -386,7 +255,7 @@ func RunShard(prop, tier string, shard, nshards int, budget time.Duration, repla
 	if budget > 0 {
 		dl = t0.Add(budget)
 	}
-	r := newReport(prop, tier, replayDir, dl)
+	r := rep.New(prop, tier, replayDir, dl)
 	r.Shard = shard
 	idx := 0
 	for _, sc := range scns {
@@ -395,7 +264,7 @@ func RunShard(prop, tier string, shard, nshards int, budget time.Duration, repla
 		if (only != "" && sc.Name != only) || (only == "" && !mine) {
 			continue
 		}
-		r.runScn(sc, 0, 1)
+		runScn(r, sc, 0, 1)
 	}
 	for _, p := range plains {
 		mine := idx%nshards == shard
@@ -403,9 +272,9 @@ func RunShard(prop, tier string, shard, nshards int, budget time.Duration, repla
 		if (only != "" && p.Name != only) || (only == "" && !mine) {
 			continue
 		}
-		r.runPlain(p)
+		r.RunPlain(p)
 	}
-	r.finish(t0)
+	r.Finish(t0)
 	return r
 }
 
@@ -447,7 +316,7 @@ func ReplayFile(path string) int {
 	if rec.Kind == "plain" {
 		for _, p := range plains {
 			if p.Name == rec.Scenario {
-				r := &Report{Prop: rec.Property, Tier: rec.Tier, Distinct: map[string]bool{}, Exhaustive: true, replays: os.TempDir(), curName: p.Name}
+				r := &Report{Prop: rec.Property, Tier: rec.Tier, Distinct: map[string]bool{}, Exhaustive: true, Replays: os.TempDir(), CurName: p.Name}
 				p.Run(r)
 				for _, v := range r.Violations {
 					if v.Sig == rec.Signature {
